@@ -747,6 +747,32 @@ fn run_history_inner(env: &Env, hist: &Hist, id: usize, input: &Value) -> Outcom
                 out.counts.push("o:file-reloads-to-added-words".into());
             }
         }
+        // (w25) O: the same clause for every FILE dictionary (no crash op touches one): it reloads to exactly the
+        // words added to it so far
+        if !junk && matches!(op, HOp::AddFile(..) | HOp::Restart) {
+            for (nid, led) in &files {
+                let Some(u) = (0..URLS.len()).find(|u| env.name_id[*u] == *nid) else { continue };
+                out.o_cases += 1;
+                let actual: Vec<String> = real.load_or_empty(&real.file_path(u)).words_iter().map(st).collect();
+                let mut ok = true;
+                let mut seen = BTreeSet::new();
+                for (w, ai) in &led.added {
+                    if seen.insert(w.clone()) && !actual.contains(w) {
+                        ok = false;
+                        fail(&mut out, led.class_lost(w, *ai), format!("after op {} the file dictionary `{}` no longer holds `{}` (added at op {}); it reloads to {:?}", idx, env.names[u], w, ai, actual));
+                    }
+                }
+                for w in &actual {
+                    if !led.added.iter().any(|(x, _)| x == w) {
+                        ok = false;
+                        fail(&mut out, "word-invented", format!("after op {} the file dictionary `{}` holds `{}`, which nobody added to it", idx, env.names[u], w));
+                    }
+                }
+                if ok {
+                    out.counts.push("o:file-dictionary-reloads-to-added-words".into());
+                }
+            }
+        }
     }
     // ---- the K line ------------------------------------------------------------------------------
     out.k.push(build_dio_line(env, id, &mut chars, &keys, dialect, &disk0, &op_txt, &res_txt));
@@ -2086,6 +2112,904 @@ fn server_url_scenarios(sess: &mut Session, env: &Env, rt: &tokio::runtime::Runt
     let _ = ls.shutdown(&boot_cfg);
 }
 
+// =============================================================================================
+// w25 — audit of the oracles and generators against the property text (additions only)
+// =============================================================================================
+//
+// (A) `server_lang_scenarios` (stream `server-lang`): the add commands on the real server for documents of
+//     EVERY front-end `update_document` chooses from the language id (plain, Markdown, HTML, Typst, git commit,
+//     literate Haskell, tree-sitter comment languages incl. the `use_ident_dict` branch), LF / CRLF, every probe
+//     twice in the document, under explicit / null / unknown configuration keys and the British dialect, followed
+//     by the handlers no other stream sends after an add: didSave, didClose + didOpen, didChangeConfiguration,
+//     then a restart. Judged on the publications: the word is accepted at every occurrence, a file-dictionary
+//     word stays reported in the other document, and ALL OTHER diagnostics are what they were before the first add.
+// (B) `js_wide_stream` (stream `js-wide`): `harper_wasm::Linter` with every dialect, Plain and Markdown, an explicit
+//     lint configuration set before the import, several `import_words` calls on one instance: imported words are
+//     accepted at every occurrence, all other lints are unchanged (the configuration survives the rebuild),
+//     `export_words` is exactly the set imported, a new Linter importing the export gives the same lints.
+// (C) `cli_dict_stream` (stream `cli-dict`): "a dictionary file on disk" read by the real `harper-cli lint
+//     --user-dict-path --file-dict-path` (its own copies of `load_dict` / `file_dict_name`): dictionaries written
+//     by the real `save_dict` under the real `file_dict_name(Url)` (and by hand with CRLF / no final newline).
+// (D) `wide_histories`: the direct path (K + O, `run_history`) over word families no generator wrote: fullwidth,
+//     astral (with and without case mapping), combining marks, Greek / Cyrillic / Hebrew / CJK / Hangul,
+//     ligatures and title-case digraphs, 300-character words, digits / hyphen / underscore inside.
+
+struct LangSpec {
+    label: &'static str,
+    id: &'static str,
+    ext: &'static str,
+    prefix: &'static str,
+    suffix: &'static str,
+    /// written after every prose line (1 or 2 line breaks)
+    sep: &'static str,
+    /// code after the prose (an identifier that no comment mentions: `use_ident_dict` without `c09-ident-dict-dropped`)
+    tail: &'static str,
+}
+const fn lang(label: &'static str, id: &'static str, ext: &'static str, prefix: &'static str, suffix: &'static str, sep: &'static str, tail: &'static str) -> LangSpec {
+    LangSpec { label, id, ext, prefix, suffix, sep, tail }
+}
+const LANGS: [LangSpec; 24] = [
+    lang("plaintext", "plaintext", "txt", "", "", "\n", ""),
+    lang("text", "text", "txt", "", "", "\n", ""),
+    lang("mail", "mail", "eml", "", "", "\n", ""),
+    lang("markdown", "markdown", "md", "", "", "\n\n", ""),
+    lang("markdown-list", "markdown", "md", "- ", "", "\n", ""),
+    lang("markdown-quote", "markdown", "md", "> ", "", "\n\n", ""),
+    lang("html", "html", "html", "<p>", "</p>", "\n", ""),
+    lang("typst", "typst", "typ", "", "", "\n\n", ""),
+    lang("git-commit", "git-commit", "txt", "", "", "\n\n", ""),
+    lang("gitcommit", "gitcommit", "txt", "", "", "\n\n", ""),
+    lang("rust", "rust", "rs", "// ", "", "\n", "fn zq_wident() {}\n"),
+    lang("rust-doc", "rust", "rs", "/// ", "", "\n", "pub fn zq_wident() {}\n"),
+    lang("python", "python", "py", "# ", "", "\n", "zq_wident = 1\n"),
+    lang("javascript", "javascript", "js", "// ", "", "\n", "let zqWident = 1;\n"),
+    lang("typescript", "typescript", "ts", "// ", "", "\n", "let zqWident: number = 1;\n"),
+    lang("go", "go", "go", "// ", "", "\n", "package zqwmain\n"),
+    lang("java", "java", "java", "// ", "", "\n", "class ZqWident {}\n"),
+    lang("lua", "lua", "lua", "-- ", "", "\n", "local zq_wident = 1\n"),
+    lang("toml", "toml", "toml", "# ", "", "\n", "zq_wident = 1\n"),
+    lang("shellscript", "shellscript", "sh", "# ", "", "\n", "zq_wident=1\n"),
+    lang("c", "c", "c", "// ", "", "\n", "int zq_wident;\n"),
+    lang("haskell", "haskell", "hs", "-- ", "", "\n", "zqwmain = 1\n"),
+    lang("lhaskell", "lhaskell", "lhs", "", "", "\n\n", "> zqwmain = 1\n"),
+    lang("literate haskell", "literate haskell", "lhs", "", "", "\n\n", "> zqwmain = 1\n"),
+];
+const LANG_CFGS: usize = 6;
+const LANG_FIXED: [&str; 2] = ["This is is a test.", "We ate a apple there."];
+
+/// the configuration the client answers with, variant `v` (constant for a whole scenario)
+fn lang_cfg(sdir: &Path, v: usize) -> Value {
+    let mut c = srv_cfg(sdir);
+    let h = c["harper-ls"].as_object_mut().unwrap();
+    match v % LANG_CFGS {
+        1 => { h.insert("dialect".into(), json!("British")); }
+        2 => { h.insert("linters".into(), json!({"SpellCheck": true, "RepeatedWords": false, "AnA": true})); }
+        3 => { h.insert("linters".into(), json!({"SpellCheck": null, "ZqNoSuchRule": true, "LongSentences": null, "RepeatedWords": null})); }
+        4 => { h.insert("linters".into(), json!({})); h.insert("dialect".into(), json!("Australian")); }
+        5 => { h.insert("markdown".into(), json!({"IgnoreLinkTitle": true})); h.insert("diagnosticSeverity".into(), json!("warning")); h.insert("codeActions".into(), json!({"ForceStable": true})); h.insert("dialect".into(), json!("Canadian")); }
+        _ => {}
+    }
+    c
+}
+
+#[derive(Clone, Debug)]
+struct LangScenario {
+    lang: usize,
+    crlf: bool,
+    twice: bool,
+    cfg: usize,
+    docs: usize,
+    adds: Vec<SrvAdd>,
+    extra: Vec<String>,
+    /// handlers sent after the commands: didSave / reopen / didChangeConfiguration / didChange
+    after: Vec<String>,
+    /// words of a user dictionary file written by hand before the server sees the documents (CRLF and no final
+    /// line break in a CRLF scenario): "a dictionary file on disk"
+    disk: Vec<String>,
+}
+/// where the probes are in the document text
+struct LangLayout {
+    text: String,
+    probes: Vec<String>,
+    /// 0-based lines of each probe's occurrences
+    lines: Vec<Vec<usize>>,
+    /// UTF-16 column of the probe word on its lines
+    col: usize,
+}
+impl LangScenario {
+    fn probes(&self) -> Vec<String> {
+        let mut p: Vec<String> = vec![];
+        for w in self.adds.iter().map(|a| &a.w).chain(self.extra.iter()).chain(self.disk.iter()) {
+            if !p.contains(w) {
+                p.push(w.clone());
+            }
+        }
+        p
+    }
+    fn layout(&self) -> LangLayout {
+        let spec = &LANGS[self.lang % LANGS.len()];
+        let probes = self.probes();
+        let mut entries: Vec<(Option<usize>, String)> = probes.iter().enumerate().map(|(i, p)| (Some(i), template(p))).collect();
+        for f in LANG_FIXED {
+            entries.push((None, f.to_string()));
+        }
+        if self.twice {
+            for (i, p) in probes.iter().enumerate() {
+                entries.push((Some(i), template(p)));
+            }
+        }
+        let per = spec.sep.matches('\n').count();
+        let mut lines: Vec<Vec<usize>> = vec![vec![]; probes.len()];
+        let mut text = String::new();
+        for (n, (pi, l)) in entries.iter().enumerate() {
+            if let Some(pi) = pi {
+                lines[*pi].push(n * per);
+            }
+            text.push_str(spec.prefix);
+            text.push_str(l);
+            text.push_str(spec.suffix);
+            text.push_str(spec.sep);
+        }
+        text.push_str(spec.tail);
+        if self.crlf {
+            text = text.replace('\n', "\r\n");
+        }
+        LangLayout { text, probes, lines, col: spec.prefix.chars().count() + TEMPLATE_AT }
+    }
+    fn to_json(&self) -> Value {
+        let spec = &LANGS[self.lang % LANGS.len()];
+        json!({"stream": "server-lang", "language": spec.label, "language_id": spec.id, "crlf": self.crlf, "every_probe_twice": self.twice, "config_variant": self.cfg % LANG_CFGS,
+            "docs": self.docs, "never_added": self.extra, "after": self.after, "user_dictionary_file_before_start": self.disk, "document_text": self.layout().text,
+            "commands": self.adds.iter().map(|a| json!({"command": if a.file { "HarperAddToFileDict" } else { "HarperAddToUserDict" }, "doc": a.doc, "word": a.w})).collect::<Vec<_>>()})
+    }
+    fn from_json(v: &Value) -> Option<LangScenario> {
+        let lang = LANGS.iter().position(|l| Some(l.label) == v["language"].as_str())?;
+        let docs = v["docs"].as_u64().unwrap_or(1).clamp(1, 2) as usize;
+        let strs = |x: &Value| x.as_array().map(|a| a.iter().filter_map(|s| s.as_str().map(|s| s.to_string())).collect::<Vec<_>>()).unwrap_or_default();
+        let adds = v["commands"].as_array()?.iter().map(|c| SrvAdd { file: c["command"] == "HarperAddToFileDict", doc: (c["doc"].as_u64().unwrap_or(0) as usize).min(docs - 1), w: c["word"].as_str().unwrap_or("").to_string() }).collect();
+        Some(LangScenario { lang, crlf: v["crlf"].as_bool().unwrap_or(false), twice: v["every_probe_twice"].as_bool().unwrap_or(false), cfg: v["config_variant"].as_u64().unwrap_or(0) as usize, docs, adds, extra: strs(&v["never_added"]), after: strs(&v["after"]), disk: strs(&v["user_dictionary_file_before_start"]) })
+    }
+}
+
+fn diag_covers(d: &Value, line: usize, col: usize) -> bool {
+    d["range"]["start"]["line"].as_u64() == Some(line as u64) && d["range"]["start"]["character"].as_u64().unwrap_or(0) <= col as u64 && d["range"]["end"]["character"].as_u64().unwrap_or(0) > col as u64
+}
+fn lang_flagged(diags: &Value, line: usize, col: usize) -> bool {
+    diags.as_array().is_some_and(|a| a.iter().any(|d| diag_covers(d, line, col)))
+}
+/// the diagnostics that are NOT on an occurrence of one of the `skip` probes, as comparable strings: a
+/// diagnostic on another probe (a spelling lint: its message / suggestions may name the added word) by
+/// its range only, everything else whole
+fn lang_others(diags: &Value, lay: &LangLayout, skip: &[usize]) -> Vec<String> {
+    let mut v: Vec<String> = vec![];
+    for d in diags.as_array().map(|a| a.as_slice()).unwrap_or(&[]) {
+        if skip.iter().any(|pi| lay.lines[*pi].iter().any(|l| diag_covers(d, *l, lay.col))) {
+            continue;
+        }
+        let on_probe = (0..lay.probes.len()).any(|pi| lay.lines[pi].iter().any(|l| diag_covers(d, *l, lay.col)));
+        v.push(if on_probe { format!("probe {}", d["range"]) } else { d.to_string() });
+    }
+    v.sort();
+    v
+}
+
+/// the property on document `d`'s latest publication `now`, after the first `upto` commands; `initial` = the
+/// publication before the first command (same text, same configuration)
+#[allow(clippy::too_many_arguments)]
+fn lang_judge(out: &mut SrvOut, sc: &LangScenario, lay: &LangLayout, d: usize, upto: usize, initial: &Value, now: &Value, when: &str) {
+    let label = LANGS[sc.lang % LANGS.len()].label;
+    let mut own: Vec<usize> = vec![];
+    for (bi, b) in sc.adds.iter().enumerate().take(upto) {
+        let pi = lay.probes.iter().position(|p| *p == b.w).unwrap();
+        let applies = !b.file || b.doc == d;
+        if applies {
+            if !own.contains(&pi) {
+                own.push(pi);
+            }
+            for l in &lay.lines[pi] {
+                out.o_cases += 1;
+                if !lang_flagged(initial, *l, lay.col) {
+                    out.counts.push(format!("lang:{}: probe never reported — not judged (crlf={} config variant {} line {})", label, sc.crlf, sc.cfg % LANG_CFGS, l));
+                } else if lang_flagged(now, *l, lay.col) {
+                    out.fails.push(("lang-added-word-flagged".into(), format!("{}: `{}` ({} #{}) is still reported on line {} of document {} ({} document)", when, b.w, if b.file { "HarperAddToFileDict" } else { "HarperAddToUserDict" }, bi + 1, l, d, label)));
+                } else {
+                    out.counts.push(format!("lang:{}: added word accepted ({})", label, when.split(':').next().unwrap_or("")));
+                }
+            }
+        } else {
+            let also = sc.adds.iter().take(upto).any(|c| c.w.to_lowercase() == b.w.to_lowercase() && (!c.file || c.doc == d));
+            if also {
+                continue;
+            }
+            for l in &lay.lines[pi] {
+                out.o_cases += 1;
+                if lang_flagged(initial, *l, lay.col) && !lang_flagged(now, *l, lay.col) {
+                    out.fails.push(("lang-file-word-leaks".into(), format!("{}: `{}` was added to the file dictionary of document {} only, but document {} ({}) no longer reports it on line {}", when, b.w, b.doc, d, label, l)));
+                } else {
+                    out.counts.push("lang:file-dictionary word still reported in the other document".into());
+                }
+            }
+        }
+    }
+    // the words of the dictionary file on disk are accepted, from the first check on and after every rewrite of
+    // that file by an add command (judged when the front-end reports the never-added word, a word of the same make)
+    let reference = sc.extra.first().and_then(|x| lay.probes.iter().position(|p| p == x)).is_some_and(|pi| lay.lines[pi].first().is_some_and(|l| lang_flagged(now, *l, lay.col)));
+    for w in &sc.disk {
+        let pi = lay.probes.iter().position(|p| p == w).unwrap();
+        for l in &lay.lines[pi] {
+            out.o_cases += 1;
+            if !reference {
+                out.counts.push(format!("lang:{}: word of the dictionary file on disk not judged (the never-added word is not reported either)", label));
+            } else if lang_flagged(now, *l, lay.col) {
+                out.fails.push(("lang-disk-word-flagged".into(), format!("{}: `{}` is in the user dictionary file written before the server started ({:?}) but is reported on line {} of document {} ({})", when, w, sc.disk, l, d, label)));
+            } else {
+                out.counts.push(format!("lang:word of the dictionary file on disk accepted ({})", when.split(':').next().unwrap_or("")));
+            }
+        }
+    }
+    // all other lints are unchanged
+    out.o_cases += 1;
+    let (a, b) = (lang_others(initial, lay, &own), lang_others(now, lay, &own));
+    if a != b {
+        let gone: Vec<&String> = a.iter().filter(|x| !b.contains(x)).collect();
+        let new: Vec<&String> = b.iter().filter(|x| !a.contains(x)).collect();
+        out.fails.push(("lang-other-lints-changed".into(), format!("{}: document {} ({}): diagnostics other than those on the added words differ from the ones before the first add: gone {} new {}", when, d, label, trunc(&format!("{:?}", gone), 400), trunc(&format!("{:?}", new), 400))));
+    } else {
+        out.counts.push(format!("lang:other diagnostics unchanged ({} of them)", if a.is_empty() { "none" } else { "some" }));
+    }
+}
+
+fn lang_uris(sdir: &Path, sc: &LangScenario) -> Vec<String> {
+    let spec = &LANGS[sc.lang % LANGS.len()];
+    (0..sc.docs).map(|d| crate::lsclient::file_url(&sdir.join(format!("doc{}.{}", d, spec.ext)))).collect()
+}
+
+/// phase 1 of a server-lang scenario; returns the publications before the first command (one per document)
+fn lang_commands(ls: &mut LsSession, sdir: &Path, sc: &LangScenario) -> Result<(SrvOut, Vec<Value>), crate::lsclient::LsError> {
+    use crate::lsclient::{did_change, did_close, did_open, did_save};
+    let mut out = SrvOut::default();
+    let spec = &LANGS[sc.lang % LANGS.len()];
+    let cfg = lang_cfg(sdir, sc.cfg);
+    let lay = sc.layout();
+    std::fs::create_dir_all(sdir).unwrap();
+    let uris = lang_uris(sdir, sc);
+    if !sc.disk.is_empty() {
+        let body = if sc.crlf { sc.disk.join("\r\n") } else { sc.disk.iter().map(|w| format!("{}\n", w)).collect() };
+        std::fs::write(sdir.join("dictionary.txt"), body).unwrap();
+    }
+    let mut initial: Vec<Value> = vec![];
+    for d in 0..sc.docs {
+        std::fs::write(sdir.join(format!("doc{}.{}", d, spec.ext)), &lay.text).unwrap();
+        ls.notify("textDocument/didOpen", did_open(&uris[d], spec.id, &lay.text))?;
+        ls.quiesce(&cfg)?;
+        match ls.last_publication(&uris[d]).cloned() {
+            Some(p) => initial.push(p),
+            None => {
+                out.fails.push(("lang-no-publication".into(), format!("didOpen of document {} ({}) published nothing", d, spec.label)));
+                initial.push(json!([]));
+            }
+        }
+    }
+    if !sc.disk.is_empty() {
+        for d in 0..sc.docs {
+            let p = initial[d].clone();
+            lang_judge(&mut out, sc, &lay, d, 0, &p, &p, "at-didOpen: before any command");
+        }
+    }
+    let mut version = 1i64;
+    for (i, a) in sc.adds.iter().enumerate() {
+        let uri = uris[a.doc].clone();
+        let n_before = ls.publications(&uri).len();
+        let cmd = if a.file { "HarperAddToFileDict" } else { "HarperAddToUserDict" };
+        ls.request_sync("workspace/executeCommand", json!({"command": cmd, "arguments": [a.w, uri]}), &cfg)?;
+        ls.quiesce(&cfg)?;
+        if ls.publications(&uri).len() == n_before {
+            out.fails.push(("lang-no-publication".into(), format!("command #{} ({} `{}`) published nothing for its {} document", i + 1, cmd, a.w, spec.label)));
+        }
+        // the other document is checked again
+        if sc.docs == 2 {
+            version += 1;
+            ls.notify("textDocument/didChange", did_change(&uris[1 - a.doc], version, &lay.text))?;
+            ls.quiesce(&cfg)?;
+        }
+        for d in 0..sc.docs {
+            if let Some(p) = ls.last_publication(&uris[d]).cloned() {
+                lang_judge(&mut out, sc, &lay, d, i + 1, &initial[d], &p, &format!("after-command: #{}", i + 1));
+            }
+        }
+    }
+    for h in &sc.after {
+        for d in 0..sc.docs {
+            let n_before = ls.publications(&uris[d]).len();
+            match h.as_str() {
+                "didSave" => ls.notify("textDocument/didSave", did_save(&uris[d]))?,
+                "reopen" => {
+                    ls.notify("textDocument/didClose", did_close(&uris[d]))?;
+                    ls.quiesce(&cfg)?;
+                    ls.notify("textDocument/didOpen", did_open(&uris[d], spec.id, &lay.text))?;
+                }
+                "didChangeConfiguration" => {
+                    if d > 0 {
+                        continue; // one notification re-checks every document
+                    }
+                    ls.notify("workspace/didChangeConfiguration", json!({"settings": cfg}))?;
+                }
+                _ => {
+                    version += 1;
+                    ls.notify("textDocument/didChange", did_change(&uris[d], version, &lay.text))?;
+                }
+            }
+            ls.quiesce(&cfg)?;
+            if ls.publications(&uris[d]).len() == n_before {
+                out.fails.push(("lang-no-publication".into(), format!("{} published nothing for document {} ({})", h, d, spec.label)));
+            }
+        }
+        for d in 0..sc.docs {
+            if let Some(p) = ls.last_publication(&uris[d]).cloned() {
+                lang_judge(&mut out, sc, &lay, d, sc.adds.len(), &initial[d], &p, &format!("after-{}: all commands, then {}", h, h));
+            }
+        }
+    }
+    Ok((out, initial))
+}
+
+/// phase 2: a new server, the same configuration and files
+fn lang_after_restart(ls: &mut LsSession, sdir: &Path, sc: &LangScenario, initial: &[Value]) -> Result<SrvOut, crate::lsclient::LsError> {
+    use crate::lsclient::did_open;
+    let mut out = SrvOut::default();
+    let spec = &LANGS[sc.lang % LANGS.len()];
+    let cfg = lang_cfg(sdir, sc.cfg);
+    let lay = sc.layout();
+    let uris = lang_uris(sdir, sc);
+    for d in 0..sc.docs {
+        ls.notify("textDocument/didOpen", did_open(&uris[d], spec.id, &lay.text))?;
+        ls.quiesce(&cfg)?;
+        match ls.last_publication(&uris[d]).cloned() {
+            Some(p) => lang_judge(&mut out, sc, &lay, d, sc.adds.len(), &initial[d], &p, "after-restart: new server, didOpen"),
+            None => out.fails.push(("lang-no-publication".into(), format!("after the restart, didOpen of document {} ({}) published nothing", d, spec.label))),
+        }
+    }
+    Ok(out)
+}
+
+/// plain probe words, pairwise different also in lower case: nonsense, Capitalised, with a non-ASCII Latin
+/// letter, Greek, Cyrillic (no apostrophes, no mixed case, no curated words: those have their own classes)
+fn lang_word(rng: &mut Rng, prev: &[String]) -> String {
+    loop {
+        let b = format!("{}{}", rng.pick(&BASE[..8]), (b'a' + rng.below(26) as u8) as char);
+        let w = match rng.below(10) {
+            0 | 1 => { let mut c = cs(&b); c[0] = c[0].to_ascii_uppercase(); st(&c) }
+            2 => format!("{}{}", b, rng.pick(&["é", "ö", "ß", "ž"])),
+            3 => format!("{}{}", rng.pick(&["ζξψ", "жщъ", "ñañ"]), &b[..3]),
+            _ => b,
+        };
+        // one Word token of its line (the lexer cuts `ζξψqxz` after the Greek letters: such a word is no probe)
+        if !prev.iter().any(|p| p.to_lowercase() == w.to_lowercase()) && !FstDictionary::curated().contains_word(&cs(&w)) && one_token(&Document::new(&template(&w), &PlainEnglish, &FstDictionary::curated()), w.chars().count()) {
+            return w;
+        }
+    }
+}
+
+fn gen_lang_scenario(rng: &mut Rng, lang: usize, cfg: usize) -> LangScenario {
+    let docs = rng.range(1, 2);
+    let n = rng.range(1, 3);
+    let mut words: Vec<String> = vec![];
+    let mut adds = vec![];
+    for _ in 0..n {
+        let w = lang_word(rng, &words);
+        words.push(w.clone());
+        adds.push(SrvAdd { file: rng.chance(2, 5), doc: rng.below(docs), w });
+    }
+    let extra = vec![lang_word(rng, &words)];
+    let all = ["didSave", "reopen", "didChangeConfiguration", "didChange"];
+    let mut after: Vec<String> = vec![];
+    for _ in 0..rng.range(1, 2) {
+        let h = rng.pick(&all).to_string();
+        if !after.contains(&h) {
+            after.push(h);
+        }
+    }
+    let mut disk = vec![];
+    if rng.chance(1, 2) {
+        for _ in 0..rng.range(1, 2) {
+            let mut all = words.clone();
+            all.extend(extra.iter().cloned());
+            all.extend(disk.iter().cloned());
+            disk.push(lang_word(rng, &all));
+        }
+    }
+    LangScenario { lang, crlf: rng.chance(1, 3), twice: rng.chance(1, 2), cfg, docs, adds, extra, after, disk }
+}
+
+fn corpus_lang() -> Vec<LangScenario> {
+    let a = |file: bool, doc: usize, w: &str| SrvAdd { file, doc, w: w.to_string() };
+    let s = |v: &[&str]| v.iter().map(|x| x.to_string()).collect::<Vec<String>>();
+    let li = |l: &str| LANGS.iter().position(|x| x.label == l).unwrap();
+    vec![
+        // every handler after a user and a file add, Markdown, two documents
+        LangScenario { lang: li("markdown"), crlf: false, twice: true, cfg: 0, docs: 2, adds: vec![a(false, 0, "zqxvk"), a(true, 1, "qxzvk")], extra: s(&["jqvzk"]), after: s(&["didChangeConfiguration", "didSave", "reopen"]), disk: s(&["vkqzk", "Xqzkk"]) },
+        // a configuration with explicit rules (RepeatedWords off): the rebuilt linter keeps it
+        LangScenario { lang: li("plaintext"), crlf: true, twice: true, cfg: 2, docs: 1, adds: vec![a(false, 0, "zqxvk"), a(true, 0, "Qxzvk")], extra: s(&["jqvzk"]), after: s(&["didChangeConfiguration"]), disk: s(&["vkqzk", "xqzkké"]) },
+        // the use_ident_dict branch: the file dictionary must be part of the merged dictionary on the first update
+        LangScenario { lang: li("rust"), crlf: false, twice: false, cfg: 0, docs: 2, adds: vec![a(true, 0, "zqxvk"), a(false, 1, "qxzvké")], extra: s(&["jqvzk"]), after: s(&["reopen", "didChangeConfiguration"]), disk: vec![] },
+        LangScenario { lang: li("html"), crlf: true, twice: true, cfg: 3, docs: 1, adds: vec![a(true, 0, "zqxvk")], extra: s(&["jqvzk"]), after: s(&["didSave"]), disk: s(&["vkqzk"]) },
+        LangScenario { lang: li("typst"), crlf: false, twice: true, cfg: 1, docs: 1, adds: vec![a(false, 0, "zqxvkö")], extra: s(&["jqvzk"]), after: s(&["didChangeConfiguration"]), disk: vec![] },
+    ]
+}
+
+/// `server-lang` scenarios through the real `Backend`: one server for all command phases, a second one for
+/// all restart phases (the pattern of `server_scenarios`)
+fn server_lang_scenarios(sess: &mut Session, root: &Path, scenarios: &[LangScenario]) {
+    let boot_cfg = srv_cfg(&root.join("boot"));
+    let start = |sess: &mut Session| -> Option<LsSession> {
+        let r = LsSession::start().and_then(|mut ls| { ls.max_wait = std::time::Duration::from_secs(20); ls.initialize(&boot_cfg).map(|_| ls) });
+        match r {
+            Ok(ls) => Some(ls),
+            Err(e) => { sess.monitor("the in-process language server answered before its deadline", false); sess.count(&format!("lang:start failed: {}", e)); None }
+        }
+    };
+    let record = |sess: &mut Session, sc: &LangScenario, o: SrvOut| {
+        for _ in 0..o.o_cases { sess.o(); }
+        for c in o.counts { sess.count(&c); }
+        for (c, d) in o.fails { sess.fail(&c, d, sc.to_json(), None); }
+    };
+    let Some(mut ls) = start(sess) else { return };
+    let mut done: Vec<(usize, Vec<Value>)> = vec![];
+    for (i, sc) in scenarios.iter().enumerate() {
+        let sdir = root.join(format!("l{}", i));
+        match lang_commands(&mut ls, &sdir, sc) {
+            Ok((o, initial)) => {
+                sess.monitor("the in-process language server answered before its deadline", true);
+                sess.count("lang:scenario (commands)");
+                sess.count(&format!("lang:language {}", LANGS[sc.lang % LANGS.len()].label));
+                sess.count(&format!("lang:config variant {}", sc.cfg % LANG_CFGS));
+                sess.count(if sc.crlf { "lang:CRLF document" } else { "lang:LF document" });
+                for h in &sc.after { sess.count(&format!("lang:handler after the adds: {}", h)); }
+                record(sess, sc, o);
+                done.push((i, initial));
+            }
+            Err(e) => {
+                sess.monitor("the in-process language server answered before its deadline", false);
+                sess.count(&format!("lang:error {}", trunc(&e.to_string(), 80)));
+                match start(sess) { Some(n) => ls = n, None => return }
+            }
+        }
+    }
+    let _ = ls.shutdown(&boot_cfg);
+    drop(ls);
+    let Some(mut ls) = start(sess) else { return };
+    for (i, initial) in done {
+        let sc = &scenarios[i];
+        let sdir = root.join(format!("l{}", i));
+        match lang_after_restart(&mut ls, &sdir, sc, &initial) {
+            Ok(o) => { sess.count("lang:scenario (restart)"); record(sess, sc, o); }
+            Err(e) => {
+                sess.monitor("the in-process language server answered before its deadline", false);
+                sess.count(&format!("lang:error {}", trunc(&e.to_string(), 80)));
+                match start(sess) { Some(n) => ls = n, None => return }
+            }
+        }
+    }
+    let _ = ls.shutdown(&boot_cfg);
+}
+
+// ---- (B) harper_wasm::Linter: dialects, Markdown, explicit configuration, several imports -------------------
+
+#[derive(Clone, Debug)]
+struct JsWide {
+    dialect: usize,
+    markdown: bool,
+    cfg: Option<String>,
+    batches: Vec<Vec<String>>,
+    extra: String,
+}
+const JS_DIALECTS: [&str; 4] = ["American", "British", "Australian", "Canadian"];
+const JS_CFGS: [Option<&str>; 4] = [None, Some("{\"RepeatedWords\": false}"), Some("{\"SpellCheck\": true, \"AnA\": false, \"ZqNoSuchRule\": true}"), Some("{\"RepeatedWords\": null, \"AnA\": null}")];
+impl JsWide {
+    fn to_json(&self) -> Value {
+        json!({"stream": "js-wide", "dialect": JS_DIALECTS[self.dialect % 4], "language": if self.markdown { "Markdown" } else { "Plain" }, "set_lint_config_from_json": self.cfg, "import_words_calls": self.batches, "never_imported": self.extra})
+    }
+    fn from_json(v: &Value) -> Option<JsWide> {
+        let batches = v["import_words_calls"].as_array()?.iter().map(|b| b.as_array().map(|a| a.iter().filter_map(|s| s.as_str().map(|s| s.to_string())).collect::<Vec<_>>()).unwrap_or_default()).collect();
+        Some(JsWide { dialect: JS_DIALECTS.iter().position(|d| Some(*d) == v["dialect"].as_str()).unwrap_or(0), markdown: v["language"] == "Markdown", cfg: v["set_lint_config_from_json"].as_str().map(|s| s.to_string()), batches, extra: v["never_imported"].as_str().unwrap_or("jqvzk").to_string() })
+    }
+    fn wasm_dialect(&self) -> harper_wasm::Dialect {
+        match self.dialect % 4 { 0 => harper_wasm::Dialect::American, 1 => harper_wasm::Dialect::British, 2 => harper_wasm::Dialect::Australian, _ => harper_wasm::Dialect::Canadian }
+    }
+}
+
+#[derive(Default)]
+struct JsOut {
+    fails: Vec<(String, String)>,
+    counts: Vec<String>,
+    o_cases: usize,
+}
+
+/// (start, end, kind, whole signature) of a JS lint
+fn js_lint_sig(l: &harper_wasm::Lint) -> (usize, usize, String, String) {
+    let sp = l.span();
+    let sugg: Vec<String> = l.suggestions().iter().map(|s| format!("{:?}:{}", s.kind() as u8, s.get_replacement_text())).collect();
+    (sp.start, sp.end, l.lint_kind(), format!("{}..{} {} {:?} {:?}", sp.start, sp.end, l.lint_kind(), l.message(), sugg))
+}
+
+fn js_wide_case(c: &JsWide) -> JsOut {
+    let mut out = JsOut::default();
+    let r = guarded(|| js_wide_inner(c));
+    match r {
+        Ok(o) => out = o,
+        Err(m) => {
+            let words: Vec<String> = c.batches.iter().flatten().cloned().chain(std::iter::once(c.extra.clone())).collect();
+            out.fails.push((if is_long_word_panic(&m, &words) { LONG_WORD_PANIC.into() } else { "panic".into() }, format!("the js-wide case panicked: {}", m)))
+        }
+    }
+    out
+}
+
+fn js_wide_inner(c: &JsWide) -> JsOut {
+    let mut out = JsOut::default();
+    let lang = if c.markdown { harper_wasm::Language::Markdown } else { harper_wasm::Language::Plain };
+    let sep = if c.markdown { "\n\n" } else { "\n" };
+    let mut words: Vec<String> = vec![];
+    for b in &c.batches {
+        for w in b {
+            if !words.contains(w) {
+                words.push(w.clone());
+            }
+        }
+    }
+    // the text: every word twice (the second time after the fixed lines), the never-imported word once
+    let mut text = String::new();
+    let mut at = 0usize;
+    let mut occ: Vec<Vec<(usize, usize)>> = vec![vec![]; words.len() + 1];
+    let mut push = |text: &mut String, at: &mut usize, line: &str| -> usize {
+        let s = *at;
+        text.push_str(line);
+        text.push_str(sep);
+        *at += line.chars().count() + sep.chars().count();
+        s
+    };
+    for (i, w) in words.iter().enumerate() {
+        let s = push(&mut text, &mut at, &template(w));
+        occ[i].push((s + TEMPLATE_AT, s + TEMPLATE_AT + w.chars().count()));
+    }
+    for f in LANG_FIXED {
+        push(&mut text, &mut at, f);
+    }
+    for (i, w) in words.iter().enumerate() {
+        let s = push(&mut text, &mut at, &template(w));
+        occ[i].push((s + TEMPLATE_AT, s + TEMPLATE_AT + w.chars().count()));
+    }
+    let s = push(&mut text, &mut at, &template(&c.extra));
+    occ[words.len()].push((s + TEMPLATE_AT, s + TEMPLATE_AT + c.extra.chars().count()));
+    // a word is judged when it is one Word token of its line and has no recorded class of its own
+    let cur = FstDictionary::curated();
+    let judged: Vec<bool> = words.iter().map(|w| {
+        let wc = cs(w);
+        one_token(&Document::new(&template(w), &PlainEnglish, &cur), wc.len()) && wc.normalized().as_ref() == wc.as_slice() && cur.get_word_metadata(&wc).is_none()
+            && !words.iter().any(|x| x != w && lownorm_s(x) == lownorm_s(w))
+    }).collect();
+    let overl = |l: &(usize, usize, String, String), o: &(usize, usize)| l.0 < o.1 && o.0 < l.1;
+    let new_linter = |c: &JsWide| -> harper_wasm::Linter {
+        let mut l = harper_wasm::Linter::new(c.wasm_dialect());
+        if let Some(j) = &c.cfg {
+            l.set_lint_config_from_json(j.clone()).expect("set_lint_config_from_json refused the harness's configuration");
+        }
+        l
+    };
+    // lints that are not on an occurrence of an imported word: on another probe by span and kind, else whole
+    let others = |lints: &[(usize, usize, String, String)], imported: &[usize]| -> Vec<String> {
+        let mut v: Vec<String> = lints.iter().filter(|l| !imported.iter().any(|i| occ[*i].iter().any(|o| overl(l, o)))).map(|l| {
+            if occ.iter().flatten().any(|o| overl(l, o)) { format!("probe {}..{} {}", l.0, l.1, l.2) } else { l.3.clone() }
+        }).collect();
+        v.sort();
+        v
+    };
+    let mut judge = |out: &mut JsOut, before: &[(usize, usize, String, String)], now: &[(usize, usize, String, String)], imported: &[usize], when: &str| {
+        for i in imported {
+            if !judged[*i] {
+                out.counts.push("jsw:word not judged (not one Word token / has a recorded class)".into());
+                continue;
+            }
+            for o in &occ[*i] {
+                out.o_cases += 1;
+                if now.iter().any(|l| overl(l, o) && l.2 == "Spelling") {
+                    out.fails.push(("jsw-added-word-flagged".into(), format!("{}: `{}` is reported by Linter::lint at {}..{} ({} {})", when, words[*i], o.0, o.1, JS_DIALECTS[c.dialect % 4], if c.markdown { "Markdown" } else { "Plain" })));
+                } else if before.iter().any(|l| overl(l, o) && l.2 == "Spelling") {
+                    out.counts.push(format!("jsw:imported word accepted ({})", when.split(':').next().unwrap_or("")));
+                } else {
+                    out.counts.push("jsw:word was not reported before the import".into());
+                }
+            }
+        }
+        out.o_cases += 1;
+        let (a, b) = (others(before, imported), others(now, imported));
+        if a != b {
+            let gone: Vec<&String> = a.iter().filter(|x| !b.contains(x)).collect();
+            let new: Vec<&String> = b.iter().filter(|x| !a.contains(x)).collect();
+            out.fails.push(("jsw-other-lints-changed".into(), format!("{}: lints other than those on the imported words differ from the ones before the first import_words (configuration {:?}): gone {} new {}", when, c.cfg, trunc(&format!("{:?}", gone), 300), trunc(&format!("{:?}", new), 300))));
+        } else {
+            out.counts.push(format!("jsw:other lints unchanged ({})", if a.is_empty() { "none" } else { "some" }));
+        }
+    };
+    let mut l = new_linter(c);
+    let before: Vec<_> = l.lint(text.clone(), lang).iter().map(js_lint_sig).collect();
+    let mut imported: Vec<usize> = vec![];
+    for (bi, b) in c.batches.iter().enumerate() {
+        l.import_words(b.clone());
+        for w in b {
+            let i = words.iter().position(|x| x == w).unwrap();
+            if !imported.contains(&i) {
+                imported.push(i);
+            }
+        }
+        let now: Vec<_> = l.lint(text.clone(), lang).iter().map(js_lint_sig).collect();
+        judge(&mut out, &before, &now, &imported, &format!("after-import: call #{}", bi + 1));
+        // the same instance again (long-lived instance, caches warm)
+        let again: Vec<_> = l.lint(text.clone(), lang).iter().map(js_lint_sig).collect();
+        judge(&mut out, &before, &again, &imported, &format!("second-lint: after call #{}", bi + 1));
+    }
+    // export_words = exactly the words imported (no case variants among them)
+    out.o_cases += 1;
+    let mut exp: Vec<String> = l.export_words();
+    exp.sort();
+    let mut want: Vec<String> = imported.iter().map(|i| words[*i].clone()).collect();
+    want.sort();
+    let collide = want.iter().any(|w| want.iter().any(|x| x != w && lownorm_s(x) == lownorm_s(w)));
+    if exp != want && !collide {
+        out.fails.push(("jsw-export-differs".into(), format!("export_words returns {:?} after import_words of {:?}", exp, c.batches)));
+    } else {
+        out.counts.push("jsw:export_words is exactly the set imported".into());
+    }
+    // restart: a new Linter (same dialect and configuration) importing the export
+    let mut l2 = new_linter(c);
+    l2.import_words(l.export_words());
+    let now: Vec<_> = l2.lint(text.clone(), lang).iter().map(js_lint_sig).collect();
+    judge(&mut out, &before, &now, &imported, "after-restart: new Linter importing export_words");
+    out.counts.push(format!("jsw:dialect {}", JS_DIALECTS[c.dialect % 4]));
+    out.counts.push(format!("jsw:language {}", if c.markdown { "Markdown" } else { "Plain" }));
+    out.counts.push(format!("jsw:configuration {}", c.cfg.as_deref().unwrap_or("default")));
+    out
+}
+
+/// word families no other generator writes (D and B share them)
+fn wide_word(rng: &mut Rng) -> String {
+    let b = rng.pick(&BASE[..8]).to_string();
+    match rng.below(16) {
+        0 => "ｚｑｘｖ".to_string(),                                    // fullwidth
+        1 => "Ｚｑｘｖｋ".to_string(),
+        2 => "𝓏𝓆𝓍𝓋".to_string(),                                     // astral, no case mapping
+        3 => "𐐨𐐩𐐪𐐫".to_string(),                                     // astral with case mapping (Deseret, lower)
+        4 => "𐐀𐐩𐐪𐐫".to_string(),                                     // … capitalised
+        5 => format!("{}e\u{301}", b),                               // combining acute
+        6 => format!("z\u{308}{}", &b[1..]),
+        7 => rng.pick(&["ζξψω", "Ζξψω", "жщъы", "Жщъы", "שלומ", "漢字語", "한국말", "ﬁzqx", "ǅzqx", "zqxẞ", "ŉzqx"]).to_string(),
+        8 => format!("{}{}", b, "xv".repeat(148)),                   // 300 characters
+        9 => format!("{}3{}", &b[..2], &b[2..]),
+        10 => format!("{}-{}", &b[..2], &b[2..]),
+        11 => format!("{}_{}", &b[..2], &b[2..]),
+        12 => format!("{}{}", b, rng.pick(&["é", "ö", "ß", "ž", "ø", "ı"])),
+        13 => { let mut c = cs(&b); c[0] = c[0].to_ascii_uppercase(); st(&c) }
+        _ => format!("{}{}", b, (b'a' + rng.below(26) as u8) as char),
+    }
+}
+
+fn gen_js_wide(rng: &mut Rng, dialect: usize, cfg: usize, markdown: bool) -> JsWide {
+    let mut words: Vec<String> = vec![];
+    let mut batches = vec![];
+    for _ in 0..rng.range(1, 3) {
+        let mut b = vec![];
+        for _ in 0..rng.range(1, 3) {
+            let w = if rng.chance(1, 2) { wide_word(rng) } else { lang_word(rng, &words) };
+            words.push(w.clone());
+            b.push(w);
+        }
+        // a word imported a second time (the count does not grow: no rebuild needed, nothing may change)
+        if rng.chance(1, 4) {
+            b.push(words[0].clone());
+        }
+        batches.push(b);
+    }
+    JsWide { dialect, markdown, cfg: JS_CFGS[cfg % JS_CFGS.len()].map(|s| s.to_string()), batches, extra: lang_word(rng, &words) }
+}
+
+fn js_wide_stream(sess: &mut Session, cases: &[JsWide]) {
+    let outs = par_map(cases.len(), 8, |i| js_wide_case(&cases[i]));
+    for (c, o) in cases.iter().zip(outs) {
+        sess.count("jsw:case");
+        for _ in 0..o.o_cases { sess.o(); }
+        for k in o.counts { sess.count(&k); }
+        for (cl, d) in o.fails { sess.fail(&cl, d, c.to_json(), None); }
+    }
+}
+
+// ---- (C) a dictionary file on disk, read by the real harper-cli --------------------------------------------
+
+/// `harper-cli lint <file> --count --only-lint-with SpellCheck --user-dict-path U --file-dict-path F`
+fn cli_count(bin: &Path, file: &Path, user: &Path, fdir: &Path, dialect: Option<&str>) -> Option<(usize, String)> {
+    let mut cmd = std::process::Command::new(bin);
+    cmd.arg("lint").arg(file).arg("--count").arg("--only-lint-with").arg("SpellCheck").arg("--user-dict-path").arg(user).arg("--file-dict-path").arg(fdir);
+    if let Some(d) = dialect {
+        cmd.arg("--dialect").arg(d);
+    }
+    let out = cmd.output().ok()?;
+    let so = String::from_utf8_lossy(&out.stdout).to_string();
+    let n = so.lines().last()?.trim().parse::<usize>().ok()?;
+    Some((n, so))
+}
+
+fn cli_dict_stream(sess: &mut Session, rt: &tokio::runtime::Runtime, root: &Path, rng: &mut Rng, rounds: usize, home0: &Option<String>) {
+    let target = PathBuf::from(env!("CARGO_MANIFEST_DIR")).join("target").join("lsbin");
+    let mut cargo = std::process::Command::new("cargo");
+    if let Some(h) = home0 {
+        cargo.env("HOME", h);
+    }
+    let built = cargo
+        .args(["build", "--offline", "--locked", "-p", "harper-cli", "--manifest-path", "/repo/Cargo.toml", "--target-dir"])
+        .arg(&target)
+        .env("CARGO_NET_OFFLINE", "true")
+        .stdout(std::process::Stdio::null())
+        .stderr(std::process::Stdio::null())
+        .status()
+        .map(|s| s.success())
+        .unwrap_or(false);
+    sess.count(if built { "cli:built" } else { "cli:not-built (stream skipped)" });
+    if !built {
+        return;
+    }
+    let bin = target.join("debug").join("harper-cli");
+    let exts = ["md", "rs", "typ", "py", "lhs"];
+    let r0 = rng.below(15);
+    for r in r0..r0 + rounds {
+        let dir = root.join(format!("cli{}", r));
+        std::fs::create_dir_all(&dir).unwrap();
+        let ext = exts[r % exts.len()];
+        let (prefix, sep) = match ext { "rs" => ("// ", "\n"), "py" => ("# ", "\n"), _ => ("", "\n\n") };
+        let mut words: Vec<String> = vec![];
+        for _ in 0..5 {
+            let w = lang_word(rng, &words);
+            words.push(w);
+        }
+        // words 0,1: user dictionary; 2: file dictionary of doc0; 3: file dictionary of doc1; 4: nowhere
+        let text: String = words.iter().chain(words.iter().take(3)).map(|w| format!("{}{}{}", prefix, template(w), sep)).collect();
+        let files = [dir.join(format!("doc0.{}", ext)), dir.join(format!("doc1.{}", ext))];
+        for f in &files {
+            std::fs::write(f, &text).unwrap();
+        }
+        let user = dir.join("dictionary.txt");
+        let fdir = dir.join("file_dictionaries");
+        let empty_user = dir.join("no-dictionary.txt");
+        let empty_fdir = dir.join("no-file-dictionaries");
+        // written the way the server writes them …
+        let mk = |ws: &[&String]| { let mut d = MutableDictionary::new(); for w in ws { d.append_word(cs(w), WordMetadata::default()); } d };
+        let hand = r % 3 == 1;
+        if hand {
+            // … or by hand: CRLF, no line break after the last word
+            std::fs::write(&user, format!("{}\r\n{}", words[0], words[1])).unwrap();
+        } else {
+            rt.block_on(save_dict(&user, mk(&[&words[0], &words[1]]))).unwrap();
+        }
+        for (d, wi) in [(0usize, 2usize), (1, 3)] {
+            let name = file_dict_name(&Url::from_file_path(&files[d]).unwrap()).unwrap();
+            rt.block_on(save_dict(fdir.join(name), mk(&[&words[wi]]))).unwrap();
+        }
+        let dialect = if r % 2 == 1 { Some("British") } else { None };
+        // three runs of the (unoptimised) executable side by side: doc0 without dictionaries (the two documents
+        // have the same text), doc0 and doc1 with them
+        let (base, with): (Option<(usize, String)>, Vec<Option<(usize, String)>>) = std::thread::scope(|sc| {
+            let hb = sc.spawn(|| cli_count(&bin, &files[0], &empty_user, &empty_fdir, dialect));
+            let h0 = sc.spawn(|| cli_count(&bin, &files[0], &user, &fdir, dialect));
+            let h1 = sc.spawn(|| cli_count(&bin, &files[1], &user, &fdir, dialect));
+            (hb.join().ok().flatten(), vec![h0.join().ok().flatten(), h1.join().ok().flatten()])
+        });
+        for d in 0..2usize {
+            let input = json!({"stream": "cli-dict", "file": files[d].to_string_lossy(), "text": text, "user_dictionary": [words[0], words[1]], "user_dictionary_written_by_hand_crlf": hand,
+                "file_dictionary_doc0": [words[2]], "file_dictionary_doc1": [words[3]], "in_no_dictionary": [words[4]], "document": d, "dialect": dialect});
+            let (Some((all, _)), Some((got, report))) = (base.clone(), with[d].clone()) else {
+                sess.count("cli:run failed or the count could not be read");
+                continue;
+            };
+            sess.o();
+            sess.count(&format!("cli:lint of a .{} file with dictionaries on disk", ext));
+            // occurrences: words 0..3 twice, 3 and 4 once
+            let occ = |i: usize| if i < 3 { 2 } else { 1 };
+            let accepted: usize = (0..5).filter(|i| *i < 2 || *i == 2 + d).map(occ).sum();
+            sess.monitor("harper-cli without dictionaries reports every probe occurrence (8)", all == 8);
+            if all == 8 && got != all - accepted {
+                let class = if got > all - accepted { "cli-dict-word-flagged" } else { "cli-file-word-leaks" };
+                sess.fail(class, format!("harper-cli lint --count {}: {} spelling lints with the dictionaries on disk, {} without; the user dictionary holds {:?}, the file's own dictionary {:?}, the other file's {:?}: expected {}; output {:?}", files[d].display(), got, all, &words[..2], words[2 + d], words[3 - d], all - accepted, trunc(&report, 200)), input, None);
+            } else {
+                sess.count("cli:words of the dictionaries on disk accepted, the other file's word and the unknown word reported");
+            }
+        }
+    }
+}
+
+// ---- (D) the direct path over word families no generator wrote ----------------------------------------------
+
+/// Recorded finding `c07-long-user-word-edit-distance-panic` (found by this stream): once a word of 255 or more
+/// characters is in a user / file dictionary, checking a text that contains ANOTHER unknown word of about that
+/// length panics in `edit_distance_min_alloc` (u8 rows): `MutableDictionary::fuzzy_match` narrows the candidates
+/// to a length window around the query, which protects it from the curated words (≤ 53 characters) only.
+/// The classifier: the panic location is edit_distance.rs AND the case's words contain two different ones of
+/// ≥ 250 characters.
+const LONG_WORD_PANIC: &str = "c07-long-user-word-edit-distance-panic";
+fn is_long_word_panic(desc: &str, words: &[String]) -> bool {
+    let long: BTreeSet<&String> = words.iter().filter(|w| w.chars().count() >= 250).collect();
+    desc.contains("harper-core/src/edit_distance.rs") && long.len() >= 2
+}
+fn hist_words(h: &Hist) -> Vec<String> {
+    let mut v: Vec<String> = h.init.iter().flat_map(|s| s.lines().map(|l| l.to_string())).collect();
+    for o in &h.ops {
+        match o {
+            HOp::Add(w) | HOp::AddFile(_, w) | HOp::Crash(w, _) => v.push(w.clone()),
+            HOp::Lint(_, q) | HOp::JsImport(q) | HOp::JsLint(q) => v.extend(q.iter().cloned()),
+            _ => {}
+        }
+    }
+    v
+}
+fn reclass_long_word_panic(o: &mut Outcome, h: &Hist) {
+    let words = hist_words(h);
+    for f in o.fails.iter_mut() {
+        if f.0 == "panic" && is_long_word_panic(&f.1, &words) {
+            f.0 = LONG_WORD_PANIC.to_string();
+        }
+    }
+}
+
+/// the family of a `wide_word` (for the distribution: which families the lexer keeps as one Word token)
+fn wide_family(w: &str) -> &'static str {
+    let c = cs(w);
+    if c.len() >= 250 {
+        "300 characters"
+    } else if c.iter().any(|x| (*x as u32) > 0xFFFF) {
+        if c.iter().any(|x| x.to_lowercase().next() != Some(*x) || x.to_uppercase().next() != Some(*x)) { "astral with case mapping" } else { "astral without case mapping" }
+    } else if c.iter().any(|x| (0xFF00..=0xFFEF).contains(&(*x as u32))) {
+        "fullwidth"
+    } else if c.iter().any(|x| (0x0300..=0x036F).contains(&(*x as u32))) {
+        "combining mark"
+    } else if c.iter().any(|x| x.is_ascii_digit()) {
+        "digit inside"
+    } else if c.contains(&'-') {
+        "hyphen inside"
+    } else if c.contains(&'_') {
+        "underscore inside"
+    } else if c.iter().any(|x| matches!(*x as u32, 0x0370..=0x03FF | 0x0400..=0x04FF | 0x0590..=0x05FF | 0x3400..=0x9FFF | 0xAC00..=0xD7AF)) {
+        "Greek / Cyrillic / Hebrew / CJK / Hangul"
+    } else if c.iter().any(|x| matches!(*x, 'ﬁ' | 'ǅ' | 'ẞ' | 'ŉ')) {
+        "ligature / title-case digraph / ẞ / ŉ"
+    } else if c.iter().any(|x| !x.is_ascii()) {
+        "non-ASCII Latin letter"
+    } else if c[0].is_ascii_uppercase() {
+        "Capitalised nonsense"
+    } else {
+        "lower-case nonsense"
+    }
+}
+
+fn wide_histories(rng: &mut Rng, n: usize) -> Vec<Hist> {
+    let mut hs = vec![];
+    for k in 0..n {
+        let mut pool: Vec<String> = vec![];
+        while pool.len() < 3 {
+            let w = wide_word(rng);
+            if !pool.iter().any(|p| lownorm_s(p) == lownorm_s(&w)) {
+                pool.push(w);
+            }
+        }
+        let q = pool.clone();
+        let mut ops = vec![HOp::Lint(0, q.clone()), HOp::Add(pool[0].clone()), HOp::Lint(1, q.clone()), HOp::AddFile(1, pool[1].clone()), HOp::Lint(1, q.clone()), HOp::Lint(0, q.clone()), HOp::Restart, HOp::Lint(1, q.clone())];
+        match k % 3 {
+            0 => { ops.push(HOp::Crash(pool[2].clone(), At::Byte(rng.below(24)))); ops.push(HOp::Lint(0, q.clone())); }
+            1 => { ops.push(HOp::JsImport(vec![pool[2].clone(), pool[0].clone()])); ops.push(HOp::JsLint(q.clone())); ops.push(HOp::JsRestart); ops.push(HOp::JsLint(q.clone())); }
+            _ => { ops.push(HOp::Add(pool[2].clone())); ops.push(HOp::Restart); ops.push(HOp::Lint(0, q.clone())); }
+        }
+        let init = if k % 4 == 3 { Some(format!("{}\r\n{}", pool[1], pool[2])) } else { None };
+        hs.push(Hist { init, british: rng.chance(1, 3), ops });
+    }
+    hs
+}
+
 // ---------------------------------------------------------------------------------------------
 
 fn merge(sess: &mut Session, o: Outcome, origin: &str) {
@@ -2121,6 +3045,8 @@ pub fn run(ctx: &Ctx) {
     std::fs::create_dir_all(&root).unwrap();
     // HOME / XDG_* for the in-process language server (statistics file, default paths); before any thread exists
     let root = std::fs::canonicalize(&root).unwrap();
+    // (w25) the cli-dict stream runs `cargo build`, which needs the real HOME (toolchain, registry)
+    let home0 = std::env::var("HOME").ok();
     crate::lsclient::set_home(&root.join("home"));
     let dict = FstDictionary::curated();
     let all: Vec<Vec<char>> = {
@@ -2152,6 +3078,18 @@ pub fn run(ctx: &Ctx) {
             if let Some(sc) = UrlScenario::from_json(&v) {
                 server_url_scenarios(&mut sess, &env, &rt, &root.join("srvurl"), &[sc]);
             }
+        } else if v["stream"] == "server-lang" {
+            if let Some(sc) = LangScenario::from_json(&v) {
+                server_lang_scenarios(&mut sess, &root.join("srvlang"), &[sc]);
+            }
+        } else if v["stream"] == "js-wide" {
+            if let Some(c) = JsWide::from_json(&v) {
+                js_wide_stream(&mut sess, &[c]);
+            }
+        } else if v["stream"] == "cli-dict" {
+            // the words are drawn again from the seed: the whole (small) stream is re-run
+            let mut crng = Rng::new(ctx.seed.wrapping_mul(0x9E3779B97F4A7C15) ^ 0xC11D);
+            cli_dict_stream(&mut sess, &rt, &root.join("clidict"), &mut crng, if thorough { 10 } else { 2 }, &home0);
         } else if v["stream"] == "fingerprint" {
             let l = |x: &Value| x.as_array().map(|a| a.iter().filter_map(|w| w.as_str().map(|s| s.to_string())).collect::<Vec<_>>()).unwrap_or_default();
             for _ in 0..64 {
@@ -2202,6 +3140,39 @@ pub fn run(ctx: &Ctx) {
             scs.push(gen_url_scenario(&mut urng));
         }
         server_url_scenarios(&mut sess, &env, &rt, &root.join("srvurl"), &scs);
+    }
+    // ---- 1d. w25: every front-end / configuration / handler after the adds (stream server-lang) ------------
+    {
+        let mut lrng = Rng::new(ctx.seed.wrapping_mul(0x9E3779B97F4A7C15) ^ 0x1A96);
+        let mut scs = corpus_lang();
+        // every language once per run (configuration variant rotating with the seed), thorough: three times
+        for rep in 0..if thorough { 3 } else { 1 } {
+            for li in 0..LANGS.len() {
+                let cfg = (li + rep + ctx.seed as usize) % LANG_CFGS;
+                scs.push(gen_lang_scenario(&mut lrng, li, cfg));
+            }
+        }
+        server_lang_scenarios(&mut sess, &root.join("srvlang"), &scs);
+    }
+    // ---- 1e. w25: harper_wasm::Linter, dialects x languages x configurations (stream js-wide) --------------
+    {
+        let mut jrng = Rng::new(ctx.seed.wrapping_mul(0x9E3779B97F4A7C15) ^ 0x15A1);
+        let mut cases = vec![
+            // the configuration must survive the rebuild that import_words triggers
+            JsWide { dialect: 0, markdown: false, cfg: Some("{\"RepeatedWords\": false}".into()), batches: vec![vec!["zqxvk".into()], vec!["qxzvk".into(), "zqxvk".into()]], extra: "jqvzk".into() },
+            JsWide { dialect: 1, markdown: true, cfg: Some("{\"AnA\": false, \"SpellCheck\": true}".into()), batches: vec![vec!["ｚｑｘｖ".into(), "𐐨𐐩𐐪𐐫".into()], vec!["zqxve\u{301}".into()]], extra: "jqvzk".into() },
+        ];
+        let n = if thorough { 96 } else { 16 };
+        for i in 0..n {
+            // all 4 dialects x 4 configurations within 16 cases; the language alternates
+            cases.push(gen_js_wide(&mut jrng, i % 4, (i / 4) % 4, (i + i / 4 + ctx.seed as usize) % 2 == 0));
+        }
+        js_wide_stream(&mut sess, &cases);
+    }
+    // ---- 1f. w25: dictionaries on disk read by the real harper-cli (stream cli-dict) -----------------------
+    {
+        let mut crng = Rng::new(ctx.seed.wrapping_mul(0x9E3779B97F4A7C15) ^ 0xC11D);
+        cli_dict_stream(&mut sess, &rt, &root.join("clidict"), &mut crng, if thorough { 10 } else { 2 }, &home0);
     }
     // ---- 1c. the rebuild decision: real MergedDictionary equality ---------------------------------------
     fingerprint_streams(&mut sess, &mut rng, thorough);
@@ -2324,6 +3295,32 @@ pub fn run(ctx: &Ctx) {
             }
             merge(&mut sess, o, "random-history");
         }
+    }
+    // ---- 3b. w25: the direct path over wide word families (fullwidth, astral, combining, scripts, 300 chars) --
+    {
+        let mut wrng = Rng::new(ctx.seed.wrapping_mul(0x9E3779B97F4A7C15) ^ 0x71DE);
+        let hs = wide_histories(&mut wrng, if thorough { 600 } else { 90 });
+        let base = next_id;
+        next_id += hs.len();
+        let outs = par_map(hs.len(), 12, |i| run_history(&env, &hs[i], base + i));
+        for (h, mut o) in hs.iter().zip(outs) {
+            reclass_long_word_panic(&mut o, h);
+            merge(&mut sess, o, "wide-word-history");
+            if let Some(HOp::Lint(_, q)) = h.ops.first() {
+                for w in q {
+                    let one = one_token(&Document::new(&template(w), &PlainEnglish, &dict), w.chars().count());
+                    sess.count(&format!("wide:family {}: {}", wide_family(w), if one { "one Word token (judged)" } else { "not one Word token (K only)" }));
+                }
+            }
+        }
+        // the witness of the recorded finding, every run: add a 256-letter word, check another one
+        let (wa, wb) = (format!("zq{}", "a".repeat(254)), format!("zq{}", "b".repeat(254)));
+        let h = Hist { init: None, british: false, ops: vec![HOp::Add(wa), HOp::Lint(0, vec![wb])] };
+        let mut o = run_history(&env, &h, next_id);
+        next_id += 1;
+        reclass_long_word_panic(&mut o, &h);
+        sess.add("wide:long-user-word witness panicked in edit_distance.rs", o.fails.iter().filter(|f| f.0 == LONG_WORD_PANIC).count() as u64);
+        merge(&mut sess, o, "wide-word-history");
     }
     // ---- 4. large dictionaries through the real save_dict under strace ---------------------------------
     {
